@@ -781,6 +781,34 @@ class Taint:
             return True
         return False
 
+    def separates(self, b, bi, site_bb):
+        """the decision taken at the end of block bi (or, for a call that returns a flag / Option / Result, at the first switch that follows it)
+        keeps one of its outcomes away from site_bb: a test whose both outcomes flow into the use (`if n > MAX { warn!(..) }`) bounds nothing"""
+        cfg = self.cfg(b)
+        t = b["blocks"][bi]["term"]
+        hops = 0
+        while t["k"] != "switch" and hops < 4:
+            nxt = t.get("target")
+            if t["k"] == "assert" or nxt is None:
+                return True               # an assertion (or a diverging call) is a decision by itself
+            if nxt == site_bb:
+                return False if t["k"] in ("call", "goto") and hops == 0 and False else self._sep_value(b, bi, site_bb)
+            bi = nxt
+            t = b["blocks"][bi]["term"]
+            hops += 1
+        if t["k"] != "switch":
+            return True                   # no decision nearby: the value itself carries the test (get / checked_* results)
+        succ = {a[1] for a in t["arms"]} | {t.get("otherwise")}
+        for x in succ:
+            if x is None:
+                continue
+            if x != site_bb and site_bb not in cfg.reachable_from(x, avoid={bi}):
+                return True
+        return False
+
+    def _sep_value(self, b, bi, site_bb):
+        return True
+
     def guarded_exact(self, b, site_bb, op):
         """a comparison of the very same value (same expression, or the value plus something) dominates site_bb, or it
         was looked up with get() / tested by a checked_* / contains call before"""
@@ -798,17 +826,17 @@ class Taint:
             if t["k"] == "switch":
                 for st in bb["stmts"]:
                     if st[0] == "assign" and st[2][0] == "binop" and st[2][1] in ("Lt", "Le", "Gt", "Ge", "Eq", "Ne"):
-                        if self._covers(self.expr_key(b, st[2][2]), key) or self._covers(self.expr_key(b, st[2][3]), key):
+                        if (self._covers(self.expr_key(b, st[2][2]), key) or self._covers(self.expr_key(b, st[2][3]), key)) and self.separates(b, bi, site_bb):
                             return True
             if t["k"] == "call" and bi != site_bb and last_seg(F.callee_name(t)) in ("get", "get_mut", "contains", "checked_add", "checked_sub", "checked_mul", "try_from", "try_into", "read", "contains_key"):
                 for a in t["args"]:
-                    if self._covers(self.expr_key(b, a), key):
+                    if self._covers(self.expr_key(b, a), key) and self.separates(b, bi, site_bb):
                         return True
                     # a range argument built from the value
                     al = F.op_local(a)
                     for d in self.defs(b).get(al, []) if al is not None else []:
                         if d[0] == "assign" and d[2][0] == "aggregate":
-                            if any(self._covers(self.expr_key(b, o), key) for o in d[2][2]):
+                            if any(self._covers(self.expr_key(b, o), key) for o in d[2][2]) and self.separates(b, bi, site_bb):
                                 return True
         return False
 
@@ -838,7 +866,7 @@ class Taint:
                 continue
             for c in cmp_locals:
                 ca = self.ancestors(b, c)
-                if ca & tainted_anc or c in anc:
+                if (ca & tainted_anc or c in anc) and self.separates(b, bi, site_bb):
                     return True
         return False
 
